@@ -272,7 +272,11 @@ def run_write_atomic(spec):
             if not (e[2] & RecOS.O_EXCL):
                 pass
         elif e[0] == 'write':
-            state[e[1]] = z3.If(done, z3.IntVal(2), z3.If(z3.And(during, torn), z3.IntVal(1), state[e[1]]))
+            # os.fdopen(fd, 'wb') is a buffered writer: write() only fills the buffer (for large data a
+            # prefix may already be on disk); the content is complete on disk after close()
+            state[e[1]] = z3.If(z3.Or(done, during), z3.IntVal(1), state[e[1]])
+        elif e[0] == 'close':
+            state[e[1]] = z3.If(done, z3.If(state[e[1]] == 1, z3.IntVal(2), state[e[1]]), state[e[1]])
         elif e[0] == 'rename':
             src, dst = e[1], e[2]
             state[dst] = z3.If(done, state[src], state[dst])
@@ -369,6 +373,9 @@ CANARIES = [
     ('write_atomic renames before writing', 'run_write_atomic', {'mapproxy.util.fs': [(
         "            with os.fdopen(fd, 'wb') as f:\n                f.write(data)\n            os.rename(path_tmp, filename)\n        except OSError as ex:",
         "            os.rename(path_tmp, filename)\n            with os.fdopen(fd, 'wb') as f:\n                f.write(data)\n        except OSError as ex:")]}, {}),
+    ('write_atomic renames before the buffered file is closed', 'run_write_atomic', {'mapproxy.util.fs': [(
+        "            with os.fdopen(fd, 'wb') as f:\n                f.write(data)\n            os.rename(path_tmp, filename)\n        except OSError as ex:",
+        "            with os.fdopen(fd, 'wb') as f:\n                f.write(data)\n                os.rename(path_tmp, filename)\n        except OSError as ex:")]}, {}),
     ('write_atomic writes the target in place', 'run_write_atomic', {'mapproxy.util.fs': [(
         "    if not sys.platform.startswith('win'):", "    if False:")]}, {}),
     ('tile file written directly', 'run_users', {'mapproxy.cache.file': [(
@@ -394,7 +401,7 @@ def obligations(tier, seed):
         specs.append(_spec('write-atomic/io-error-in-%s' % fail, 'run_write_atomic', fail_at=fail))
     specs.append(_spec('write-atomic/users', 'run_users'))
     specs.append(_spec('twin/bundle-v2-crash', 'run_crash_v2', kind='witness', n=5, k=1, cost=5))
-    for label, func, patches, extra in (CANARIES if tier == 'thorough' else CANARIES[:4]):
+    for label, func, patches, extra in (CANARIES if tier == 'thorough' else CANARIES[:5]):
         specs.append(_spec('canary/' + label, func, kind='canary', cost=30, n=5,
                            patches={m: [list(x) for x in lst] for m, lst in patches.items()}, **extra))
     return specs
